@@ -71,9 +71,18 @@ static uint64_t trand(void)
   return x;
 }
 
+/* role-biased schedules (round 6): one role (dsqdata: L loader, U unpackers, C consumers; work queue: R reader, W workers) is slowed
+ * down at every wrapped pthread call, so that the interleavings a free run hardly ever visits are reached - a consumer faster than
+ * the loader (it sleeps in Read), every unpacker parked, the recycling stack empty / deep, the reader or the workers starved */
+static int  g_slow = 0;
+static char dd_who(void);
 static void perturb(void)
 {
   uint64_t r;
+  if (g_slow) {
+    char who = g_dd ? dd_who() : g_wq ? (tctx.tid == 0 ? 'R' : tctx.tid == 99 ? 0 : 'W') : 0;
+    if (who == g_slow && trand() % 2 == 0) usleep((useconds_t)(40 + trand() % 160));
+  }
   if (! g_perturb) return;
   r = trand();
   if ((int)(r % 100) >= g_perturb) return;
@@ -503,6 +512,7 @@ static void op_wqrun(void)
 
   if (size < 1 || size > 32 || W < 1 || W > 8 || B < 1 || B > size || M < 0 || M > 100000) { h_out("bad-op"); return; }
   g_perturb = (int) h_argi("pert", 30);
+  g_slow = (h_arg("slow") && h_arg("slow")[0] != '-') ? h_arg("slow")[0] : 0;
   memset(&tctx, 0, sizeof(tctx)); tctx.tid = 0; tctx.rng = seed * 0x9E3779B97F4A7C15ull + 1;
   g_tlen = 0; g_nevents = 0; if (g_trace) g_trace[0] = 0; g_lockerr = 0;
   g_wq = esl_workqueue_Create(size);
@@ -552,7 +562,7 @@ static void op_wqrun(void)
           dup ? " dup" : "", W, fifo ? "fifo" : "unordered", rc, wc, pend, removed, g_lockerr ? " lockerr" : "", H_LEAKCHECK() ? " leak" : "",
           g_nevents ? g_trace : "-");
   }
-  g_perturb = 0;
+  g_perturb = 0; g_slow = 0;
 }
 
 /* ---------------------------------------------------------------------------------------------
@@ -605,7 +615,7 @@ static void op_thrun(void)
   { ESL_THREADS *t = g_thr; g_thr = NULL; esl_threads_Destroy(t); }
   h_out("%s workers=%d rounds=%d idx=%s early=%d%s%s trace=%s", ok ? "ok" : "fail", N, R, badidx ? "bad" : "ok", early, g_lockerr ? " lockerr" : "",
         H_LEAKCHECK() ? " leak" : "", g_trace);
-  g_perturb = 0;
+  g_perturb = 0; g_slow = 0;
 }
 
 /* ---------------------------------------------------------------------------------------------
@@ -906,6 +916,7 @@ static void op_dsqrt(void)
  WRITTEN:
   esl_verif_dsqdata_maxseq = maxseq; esl_verif_dsqdata_maxpacket = maxpacket; esl_verif_dsqdata_unpackers = U;
   g_perturb = (int) h_argi("pert", 30);
+  g_slow = (h_arg("slow") && h_arg("slow")[0] != '-') ? h_arg("slow")[0] : 0;
   memset(&tctx, 0, sizeof(tctx)); tctx.rng = seed * 0x9E3779B97F4A7C15ull + 11;
   rt_nseq = n1; rt_rec = calloc(n1 + 1, sizeof(RREC)); rt_nchu_alloc = n1 + 2; rt_chu = calloc(rt_nchu_alloc, sizeof(CHREC));
   rt_dup = rt_eofs = rt_oob = rt_err = 0;
@@ -931,7 +942,7 @@ static void op_dsqrt(void)
   }
   for (i = 0; i < C; i++) pthread_join(th[i], &r);
   { ESL_DSQDATA *dd = g_dd; esl_dsqdata_Close(dd); g_dd = NULL; }
-  g_perturb = 0;
+  g_perturb = 0; g_slow = 0;
 
   /* compare with what was written */
   for (i = 0; i < n1; i++) {
